@@ -79,6 +79,24 @@ pub fn funnel_cfg() -> GenCfg {
     }
 }
 
+/// sparse conflicts over a large universe: stages wider than every inline capacity (6 groups per
+/// stage, 12 reads / 10 writes per group), dependency lists longer than 4
+pub fn wide_cfg() -> GenCfg {
+    GenCfg {
+        max_ops: 30,
+        universe_max: 28,
+        max_reads: 5,
+        max_writes: 1,
+        p_dep: 3,
+        max_deps: 7,
+        p_barrier: 1,
+        p_batch: 0,
+        p_tl: 1,
+        p_static: 0,
+        ..GenCfg::default()
+    }
+}
+
 pub fn dense_conflict_cfg() -> GenCfg {
     GenCfg {
         universe_max: 5,
@@ -270,6 +288,22 @@ pub fn subs_for(id: &str) -> Vec<Sub> {
             sub(
                 lp(
                     "C01",
+                    "c01-layout-wide",
+                    "wide class (stages of more than 6 groups, groups with more than 12 accumulated reads, dependency lists of up to 7 names)",
+                    GenCfg {
+                        max_writes: 2,
+                        universe_max: 20,
+                        ..wide_cfg()
+                    },
+                    900,
+                    p_layout::o_c01,
+                ),
+                100_000,
+                2_000_000,
+            ),
+            sub(
+                lp(
+                    "C01",
                     "c01-layout",
                     "general plans; oracle A: in the executed layout no two systems in different groups of one stage conflict under the reference conflict relation (batch = union of controller declaration and everything inside); non-trivial = a stage with >= 2 groups and >= 1 conflicting pair; distinct = plan hash",
                     GenCfg::default(),
@@ -293,6 +327,20 @@ pub fn subs_for(id: &str) -> Vec<Sub> {
             ),
         ],
         "C02" => vec![sub(
+            lp(
+                "C02",
+                "c02-layout-wide",
+                "wide class: dependency lists of up to 7 (distinct and repeated) names over up to 30 systems",
+                GenCfg {
+                    p_dep: 10,
+                    ..wide_cfg()
+                },
+                900,
+                p_layout::o_c02,
+            ),
+            100_000,
+            2_000_000,
+        ), sub(
             lp(
                 "C02",
                 "c02-layout",
@@ -368,6 +416,18 @@ pub fn subs_for(id: &str) -> Vec<Sub> {
             ),
         ],
         "C10" => vec![
+            sub(
+                lp(
+                    "C10",
+                    "c10-layout-wide",
+                    "wide class: up to 30 systems over up to 28 resources with up to 5 reads each and dependency lists of up to 7 names, so that stages exceed every inline capacity (more than 6 groups, more than 12 accumulated reads, more than 4 dependencies)",
+                    wide_cfg(),
+                    900,
+                    p_layout::o_c10,
+                ),
+                100_000,
+                2_000_000,
+            ),
             sub(
                 LayoutProp {
                     property: "C10",
@@ -612,6 +672,24 @@ pub fn sched_subs_for(id: &str) -> Vec<Sub> {
                 200_000,
             )
           },
+          sched_sub(
+            p_sched::SchedProp {
+                max_repeats: 3,
+                thread_choices: vec![1, 2, 3, 5, 7, 8, 15, 16],
+                ..sp(
+                    "C04",
+                    "c04-exec-wide",
+                    "wide class (stages of 7..30 groups) on pools of 1, 2, 3, 5, 7, 8, 15, 16 threads, free run with jitter: run counters after 1..3 calls",
+                    wide_cfg(),
+                    vec![Want::Counts, Want::Isolation, Want::Deps],
+                    vec![Dispatch, Par, SeqTl],
+                    vec![2],
+                    p_sched::nt_counts,
+                )
+            },
+            3_000,
+            100_000,
+          ),
           sched_sub(
             p_sched::SchedProp {
                 max_repeats: 4,
